@@ -218,6 +218,11 @@ def handle (op : String) (j : Json) : Except String Json := do
   | "c09.facts" =>
     let a ← chartOf (← field j "a")
     .ok (okJson (factsJ a))
+  | "c09.crowded" =>
+    let res ← resOf (← field j "res")
+    let a ← chartOf (← field j "a")
+    .ok (okJson (obj [("crowded", Json.bool (match res with | .ms => false | .beat _ _ => crowded res a)),
+                      ("tempo_crowded", Json.bool (tempoCrowded res a))]))
   | _ => .error s!"unknown op {op}"
 
 end Reamber.C09
